@@ -730,7 +730,10 @@ pub fn gen_for(suite: &str, tier: &str, rng: &mut Rng, emit: &mut dyn FnMut(Stri
             // fortnight around the date in years where the date falls on every weekday in turn (so
             // also on the target weekday itself, where the offset must do nothing), for every
             // target weekday and both signs
-            for (base, (m, dd)) in [("Jan 1", (1u32, 1u32)), ("Dec 25", (12, 25)), ("Jun 15", (6, 15)), ("Feb 29", (2, 29))] {
+            // `Dec 31`, `Dec 28`, `Jan 3`: a forward shift crosses into the next year (the occurrence that decides the
+            // first week of January belongs to the PREVIOUS year: mutant 0725 of the mutation sweep — the single-day
+            // window `end_year - 1..` narrowed to `end_year..` — survived while no base lay within a week of the year end)
+            for (base, (m, dd)) in [("Jan 1", (1u32, 1u32)), ("Dec 25", (12, 25)), ("Jun 15", (6, 15)), ("Feb 29", (2, 29)), ("Dec 31", (12, 31)), ("Dec 28", (12, 28)), ("Jan 3", (1, 3))] {
                 for y in [2023, 2024, 2025, 2026, 2027, 2028, 2029, 2032] {
                     let Some(c) = chrono::NaiveDate::from_ymd_opt(y, m, dd).map(ast::day_num) else { continue };
                     for (i, w) in wd.iter().enumerate() {
